@@ -10,7 +10,13 @@
 (*       icu |-> [req, en (3 words), ven, vlo, vhi, vctx (16 each)],                                       *)
 (*       bt |-> <<btdmp0, btdmp1>> (Btdmp records), ap |-> [fc |-> apbp_from_cpu, fd |-> apbp_from_dsp],           *)
 (*       cells |-> plain-storage MMIO cells written so far (offset -> value),                              *)
-(*       ev |-> ordered callback/event log ]                                                               *)
+(*       ev |-> ordered callback/event log,                                                                *)
+(*       dma |-> [en, act, ch |-> <<8 channel records of Dma.tla plus yv, zv>>]  (dma.h),                  *)
+(*       ah |-> [busy, ch |-> 0..2 -> channel record of Ahbm.tla (burst queue included)]  (ahbm.h),        *)
+(*       ext |-> external memory behind the AHBM callbacks: sparse byte map, wide address <<hi,lo>> -> byte *)
+(*       xa |-> ordered log of the external-memory callbacks <<kind, addr hi, addr lo, value hi, value lo>>, *)
+(*       hz |-> {} except while a guest-started transfer runs: the cells the same cycle accesses AFTER the   *)
+(*              starting register write (see ApplyMmio) ]                                                   *)
 EXTENDS TeakCore
 
 TM == INSTANCE TimerOps WITH B <- 65536, FixedSkipZero <- TRUE
@@ -18,6 +24,13 @@ TM == INSTANCE TimerOps WITH B <- 65536, FixedSkipZero <- TRUE
 BT == INSTANCE Btdmp WITH Cap <- 16, TW <- 65536, ResetPeriod <- 4096, FixedSkipOverrun <- TRUE, Vals <- {}, Periods <- {},
                           Clocks <- {}, K <- 0, G <- 0, PhaseKept <- FALSE, s <- 0, ev <- 0, outc <- 0, gin <- 0, gout <- 0, gpad <- 0
 AP == INSTANCE Apbp WITH NCh <- 3, Data <- 0 .. 65535, SemW <- 16, FixedMask <- TRUE
+\* DMA engine and AHB bridge: Channel::Start / Channel::Tick and the Ahbm entry points are the operators of Dma.tla /
+\* Ahbm.tla at full width.  counter0 is a u32 in dma.h (FixedD8); a DSP-side access is at byte 2 * (0x20000 + cursor)
+\* mod 2^32 and is performed iff it lies inside the array [0, 0x80000) (RealMap with the range the system recorder's
+\* memory observer enforces: the whole array, program memory included -- known finding oob:dma_cursor)
+DM == INSTANCE Dma WITH B <- 65536, BB <- 256, HB <- 256, FixedD8 <- TRUE, RealMap <- TRUE, DataHi <- 2, RangeLo <- 0, RangeHi <- 8,
+                        SizeSet <- {}, StepPairs <- {}, ModeSet <- {}, BaseSet <- {}, AhbmSet <- {},
+                        ch <- 0, ah <- 0, dmem <- 0, xmem <- 0, log <- 0, irq <- 0, ticks <- 0, phase <- 0
 
 IrqTimer0 == 10  IrqTimer1 == 9  IrqBtdmp == 11  IrqApbp == 14  IrqDma == 15
 
@@ -133,12 +146,130 @@ BtEvents(y, i, evs, j) ==
     ELSE BtEvents(IF i = 0 THEN Ev(y, EvAudio(evs[j][2], evs[j][3])) ELSE y, i, evs, j + 1)
 TickBtdmp(y, i) == LET r == BT!TickOp(y.bt[i + 1]) IN BtEvents([y EXCEPT !.bt[i + 1] = r.s], i, r.ev, 1)
 
+\* --- AHB bridge and DMA engine (ahbm.cpp, dma.cpp; MMIO 0x0E0-0x0F2, 0x184, 0x18C, 0x1BE-0x1DE; wiring of teakra.cpp) ---
+\* State as the classes have it.  The channel records are those of Dma.tla / Ahbm.tla (so that DM!StartOp, DM!TickOp,
+\* DM!Read32Op ... apply to them as they stand) plus the two plain per-channel registers y and z of dma.h.
+DmaChanReset == [sa |-> <<0, 0>>, da |-> <<0, 0>>, z0 |-> 0, z1 |-> 0, z2 |-> 0, ss |-> <<0, 0, 0>>, ds |-> <<0, 0, 0>>,
+                 sp |-> 0, dp |-> 0, dw |-> 0, yv |-> 0, zv |-> 0,
+                 cs |-> <<0, 0>>, cd |-> <<0, 0>>, c0 |-> 0, c1 |-> 0, c2 |-> 0, run |-> 0, ach |-> 0]
+DmaReset == [en |-> 0, act |-> 0, ch |-> <<DmaChanReset, DmaChanReset, DmaChanReset, DmaChanReset,
+                                           DmaChanReset, DmaChanReset, DmaChanReset, DmaChanReset>>]
+AhReset == [busy |-> 0, ch |-> (0 :> DM!AhbmChanReset) @@ (1 :> DM!AhbmChanReset) @@ (2 :> DM!AhbmChanReset)]
+
+\* external memory (the host's AHBM callbacks): bytes never written hold a value derived from their address (the
+\* recorder's callbacks use the same rule), so that a moved byte tells where it came from
+ExtFill(a) == (7 * a[2] + 13 * a[1] + 3) % 256
+ExtByte(y, a) == IF a \in DOMAIN y.ext THEN y.ext[a] ELSE ExtFill(a)
+XB(y, a, k) == ExtByte(y, DM!AddK(a, k))
+SetExt(y, a, k, b) == [y EXCEPT !.ext = (DM!AddK(a, k) :> b) @@ @]
+Xa(y, e) == [y EXCEPT !.xa = Append(@, <<e[1], e[2][1], e[2][2], e[3][1], e[3][2]>>)]
+\* DSP side: SharedMemory::ReadWord / WriteWord(0x20000 + cursor) go straight to the array, not through the MIU;
+\* a is the byte address (wide), inside the array here
+DspWord(a) == (a[1] * 65536 + a[2]) \div 2
+
+\* what the environment returns for one read request <<kind, address>> of Dma.tla / Ahbm.tla, as a 32-bit value
+\* (new here: Dma.tla's own state machine reads its scaled model memories; this reads the composed machine's)
+EnvRead(y, req) ==
+    LET k == req[1]  a == req[2] IN
+    IF k = DM!KDspR THEN <<0, MemVal(y.c, DspWord(a))>>
+    ELSE IF k = DM!KR8 THEN <<0, XB(y, a, 0)>>
+    ELSE IF k = DM!KR16 THEN <<0, XB(y, a, 0) + 256 * XB(y, a, 1)>>
+    ELSE IF k = DM!KR32 THEN <<XB(y, a, 2) + 256 * XB(y, a, 3), XB(y, a, 0) + 256 * XB(y, a, 1)>>
+    ELSE <<0, 0>>                                                \* vetoed DSP read: returns 0
+EnvVals(y, reqs) == [i \in 1 .. Len(reqs) |-> EnvRead(y, reqs[i])]
+
+\* one event <<kind, address, value>> of a tick / an AHBM call acting on the composed machine: DSP writes land in
+\* y.c.mem and in the access list (so that the cell is part of the observation), external accesses in y.ext and, in
+\* order, in y.xa; a DSP access outside the array is the outcome "oob" (the read returned 0, the write is dropped)
+EnvEvent(y, e) ==
+    LET k == e[1]  a == e[2]  v == e[3] IN
+    IF (k = DM!KDspR \/ k = DM!KDspW) /\ DspWord(a) \in y.hz THEN [y EXCEPT !.c = Fail(@, "dma-grain")]
+    ELSE IF k = DM!KDspR THEN y
+    ELSE IF k = DM!KDspW THEN [y EXCEPT !.c = RawWrite(@, DspWord(a), v[2])]
+    ELSE IF k = DM!KOobR \/ k = DM!KOobW THEN [y EXCEPT !.c = Fail(@, "oob")]
+    ELSE IF k = DM!KW8  THEN Xa(SetExt(y, a, 0, v[2] % 256), e)
+    ELSE IF k = DM!KW16 THEN Xa(SetExt(SetExt(y, a, 0, v[2] % 256), a, 1, v[2] \div 256), e)
+    ELSE IF k = DM!KW32 THEN Xa(SetExt(SetExt(SetExt(SetExt(y, a, 0, v[2] % 256), a, 1, v[2] \div 256), a, 2, v[1] % 256), a, 3, v[1] \div 256), e)
+    ELSE Xa(y, e)                                                \* external read
+RECURSIVE EnvEvents(_, _, _)
+EnvEvents(y, evs, j) == IF j > Len(evs) THEN y ELSE EnvEvents(EnvEvent(y, evs[j]), evs, j + 1)
+
+\* Dma::DoDma(n): Start, ahbm_channel := GetChannelForDma(n), Tick while running, then the interrupt handler, which
+\* teakra.cpp wires to icu.TriggerSingle(0xF).  Everything happens inside the register write, synchronously.
+\* (The loop is as coded; the specification gives up -- an outcome no recording has -- beyond DmaFuel elements.)
+DmaFuel == 4096
+DmaTickApply(y, n, r) == EnvEvents([y EXCEPT !.dma.ch[n + 1] = r.ch, !.ah.ch = r.ah], r.ev, 1)
+RECURSIVE DmaRun(_, _, _)
+DmaRun(y, n, fuel) ==
+    IF y.dma.ch[n + 1].run = 0 THEN y
+    ELSE IF fuel = 0 THEN [y EXCEPT !.c = Fail(@, "dma-too-long")]
+    ELSE DmaRun(DmaTickApply(y, n, DM!TickOp(y.dma.ch[n + 1], y.ah.ch, EnvVals(y, DM!ReadReqs(y.dma.ch[n + 1], y.ah.ch)))), n, fuel - 1)
+DoDma(y, n) ==
+    LET y1 == DmaRun([y EXCEPT !.dma.ch[n + 1] = DM!StartOp(@, DM!ChannelForDma(y.ah.ch, n))], n, DmaFuel)
+    IN  IF y1.c.out # "ok" THEN y1 ELSE IcuTrigger([y1 EXCEPT !.hz = {}], 2 ^ IrqDma)
+
+\* AHBM registers: 0x0E0 busy flag (read only), per channel i at 0x0E2 + 6 i: burst (bits 1-2) / unit (bits 4-5) over a
+\* storage word, 0x0E4 + 6 i: direction (bit 8) over a storage word, 0x0E6 + 6 i: DMA channel mask
+IsAhbmOff(off) == off \in {224, 226, 228, 230, 232, 234, 236, 238, 240, 242}
+AhIdx(off) == (off - 226) \div 6
+AhReg(off) == (off - 226) % 6
+AhbmRead(y, off) ==
+    IF off = 224 THEN y.ah.busy
+    ELSE LET a == y.ah.ch[AhIdx(off)]  k == AhReg(off) IN
+         CASE k = 0 -> (CellVal(y, off) & (65535 - 6 - 48)) + 2 * a.bu + 16 * a.u
+           [] k = 2 -> (CellVal(y, off) & (65535 - 256)) + 256 * a.dir
+           [] k = 4 -> a.dm
+AhbmWrite(y, off, v) ==
+    IF off = 224 THEN y                                            \* NoSet
+    ELSE LET i == AhIdx(off)  k == AhReg(off) IN
+         CASE k = 0 -> SetCell([y EXCEPT !.ah.ch[i].bu = (v \div 2) % 4, !.ah.ch[i].u = (v \div 16) % 4], off, v)
+           [] k = 2 -> SetCell([y EXCEPT !.ah.ch[i].dir = Bit(v, 8)], off, v)
+           [] k = 4 -> [y EXCEPT !.ah.ch[i].dm = v]
+
+\* DMA registers: 0x184 enable word, 0x18C reads 0xFFFF (its setter is the default storage nobody reads), 0x1BE the
+\* active channel (3 bits), 0x1C0-0x1DE the registers of the active channel; 0x1DA is a bit-field cell (source space
+\* bits 0-3, destination space bits 4-7, double-word mode bit 10) over ONE storage word shared by all channels;
+\* writing 0x40C0 to 0x1DE runs the transfer of the active channel
+IsDmaOff(off) == off = 388 \/ off = 396 \/ (off >= 446 /\ off <= 478 /\ off % 2 = 0)
+DmaRead(y, off) ==
+    IF off = 388 THEN y.dma.en ELSE IF off = 396 THEN 65535 ELSE IF off = 446 THEN y.dma.act
+    ELSE LET h == y.dma.ch[y.dma.act + 1] IN
+         CASE off = 448 -> h.sa[2] [] off = 450 -> h.sa[1] [] off = 452 -> h.da[2] [] off = 454 -> h.da[1]
+           [] off = 456 -> h.z0 [] off = 458 -> h.z1 [] off = 460 -> h.z2
+           [] off = 462 -> h.ss[1] [] off = 464 -> h.ds[1] [] off = 466 -> h.ss[2] [] off = 468 -> h.ds[2]
+           [] off = 470 -> h.ss[3] [] off = 472 -> h.ds[3]
+           [] off = 474 -> (CellVal(y, off) & (65535 - 15 - 240 - 1024)) + h.sp + 16 * h.dp + 1024 * h.dw
+           [] off = 476 -> h.yv [] off = 478 -> h.zv
+DmaWrite(y, off, v) ==
+    IF off = 388 THEN [y EXCEPT !.dma.en = v] ELSE IF off = 396 THEN y ELSE IF off = 446 THEN [y EXCEPT !.dma.act = v % 8]
+    ELSE LET n == y.dma.act + 1 IN
+         CASE off = 448 -> [y EXCEPT !.dma.ch[n].sa[2] = v] [] off = 450 -> [y EXCEPT !.dma.ch[n].sa[1] = v]
+           [] off = 452 -> [y EXCEPT !.dma.ch[n].da[2] = v] [] off = 454 -> [y EXCEPT !.dma.ch[n].da[1] = v]
+           [] off = 456 -> [y EXCEPT !.dma.ch[n].z0 = v] [] off = 458 -> [y EXCEPT !.dma.ch[n].z1 = v]
+           [] off = 460 -> [y EXCEPT !.dma.ch[n].z2 = v]
+           [] off = 462 -> [y EXCEPT !.dma.ch[n].ss[1] = v] [] off = 464 -> [y EXCEPT !.dma.ch[n].ds[1] = v]
+           [] off = 466 -> [y EXCEPT !.dma.ch[n].ss[2] = v] [] off = 468 -> [y EXCEPT !.dma.ch[n].ds[2] = v]
+           [] off = 470 -> [y EXCEPT !.dma.ch[n].ss[3] = v] [] off = 472 -> [y EXCEPT !.dma.ch[n].ds[3] = v]
+           [] off = 474 -> SetCell([y EXCEPT !.dma.ch[n].sp = v % 16, !.dma.ch[n].dp = (v \div 16) % 16, !.dma.ch[n].dw = Bit(v, 10)], off, v)
+           [] off = 476 -> [y EXCEPT !.dma.ch[n].yv = v]
+           [] off = 478 -> IF v = 16576 THEN DoDma([y EXCEPT !.dma.ch[n].zv = v], y.dma.act) ELSE [y EXCEPT !.dma.ch[n].zv = v]
+
+\* the host's AHBM accessors (teakra.cpp): Ahbm::Read16/Read32/Write16/Write32 on AHBM channel 0; addresses and 32-bit
+\* values are wide <<hi, lo>>.  AHBMRead32 is declared std::uint16_t: the caller gets the low half of the value.
+AhbmHost(y, r) == EnvEvents([y EXCEPT !.ah.ch[0] = r.c], r.ev, 1)
+AhbmHostRead32(y, addr) == DM!Read32Op(y.ah.ch[0], addr, EnvVals(y, DM!ReadReqs32(y.ah.ch[0], addr)))
+AhbmHostRead16(y, addr) == DM!Read16Op(y.ah.ch[0], addr, EnvVals(y, DM!ReadReqs32(y.ah.ch[0], addr)))
+
 TimerCfgRead(y, i) ==
     LET t == y.tm[i + 1]  raw == CellVal(y, 32 + 16 * i)
         keep == raw & (65535 - (3 + 28 + 256 + 512 + 1024))     \* bits not overlaid by a getter
     IN  keep + t.sc + 4 * t.m + 256 * t.p + 512 * t.u
 
-MmioRead(y, off) ==
+\* (TeakMachine!RawWrite extends the read function of the cycle by `written offset :> value`, which makes TLC tabulate
+\* it for all 2048 offsets at every instruction that writes a register: the plain storage cells -- nearly all of
+\* them -- are therefore told apart by one table lookup, BoundTab, before the chain of register families is walked.
+\* BoundTab may be TRUE for more offsets than mmio.cpp binds: MmioRegRead ends in the plain cell as well.)
+MmioRegRead(y, off) ==
     IF IsTimerOff(off) THEN
         LET i == TimerOf(off)  t == y.tm[i + 1]  k == TimerReg(off) IN
         CASE k = 0 -> TimerCfgRead(y, i)
@@ -159,7 +290,12 @@ MmioRead(y, off) ==
     ELSE IF IsMiuOff(off) THEN MiuRead(y, off)
     ELSE IF IsApbpOff(off) THEN ApbpRead(y, off)
     ELSE IF IsBtdmpOff(off) THEN BtdmpRead(y, off)
+    ELSE IF IsDmaOff(off) THEN DmaRead(y, off)
+    ELSE IF IsAhbmOff(off) THEN AhbmRead(y, off)
     ELSE CellVal(y, off)
+BoundTab == TLCEval([o \in 0 .. 2047 |-> \/ IsTimerOff(o) \/ (o >= 512 /\ o < 596) \/ o = 26 \/ IsMiuOff(o) \/ IsApbpOff(o)
+                                        \/ IsBtdmpOff(o) \/ IsDmaOff(o) \/ IsAhbmOff(o)])
+MmioRead(y, off) == IF BoundTab[off] THEN MmioRegRead(y, off) ELSE CellVal(y, off)
 
 \* interrupt of timer i through the ICU
 TimerIrq(y, i, n) == IF n = 0 THEN y ELSE IcuTrigger(y, 2 ^ (IF i = 0 THEN IrqTimer0 ELSE IrqTimer1))
@@ -192,27 +328,38 @@ MmioWrite(y, off, v) ==
     ELSE IF IsMiuOff(off) THEN MiuWrite(y, off, v)
     ELSE IF IsApbpOff(off) THEN ApbpWrite(y, off, v)
     ELSE IF IsBtdmpOff(off) THEN BtdmpWrite(y, off, v)
+    ELSE IF IsDmaOff(off) THEN DmaWrite(y, off, v)
+    ELSE IF IsAhbmOff(off) THEN AhbmWrite(y, off, v)
     ELSE SetCell(y, off, v)
 
-\* offsets bound by mmio.cpp to peripherals this module does not (yet) model: a program touching one makes
-\* the specification decline the trace (outcome "unmodelled"); it never guesses.  Everything else is a timer
-\* or ICU register (above), the chip-detect constant, or a plain storage cell.
-UnmodelledOff(off) == \/ off \in 224 .. 243            \* AHBM
-                   \/ off \in {388, 396} \/ off \in 446 .. 479      \* DMA
+\* offsets bound by mmio.cpp to peripherals this module does not model: a program touching one makes the
+\* specification decline the trace (outcome "unmodelled"); it never guesses.  There is none left: every offset
+\* mmio.cpp binds is a register modelled above (timers, ICU, MIU, mailboxes, audio ports, AHBM, DMA) or the
+\* chip-detect constant; everything else is a plain storage cell.
+UnmodelledOff(off) == FALSE
 Modelled(off) == ~ UnmodelledOff(off)
 
 -----------------------------------------------------------------------------
 (* one emulated cycle                                                                                      *)
 MmioRange == MmioBase .. MmioBase + 2047
 
-\* the MMIO writes (and side-effecting reads) of the executed instruction, in access order
+\* the MMIO writes (and side-effecting reads) of the executed instruction, in access order.
+\* Grain: these effects are applied after the core part of the cycle (instruction and interrupt entry).  For a DMA
+\* transfer -- the only register effect that reads and writes memory -- this is the real order unless the same cycle
+\* touches, after the starting write, a cell the transfer touches too (the return address pushed by an interrupt entered
+\* in that cycle landing in a transfer's range).  That case is not guessed: the cells accessed later in the cycle are
+\* handed to the transfer (y.hz) and a transfer touching one of them ends in the outcome "dma-grain", which no
+\* recording has.  The recorder's programs keep their transfers away from the stack.
+LaterTouched(acc, j) == {acc[k][1] : k \in {i \in j + 1 .. Len(acc) : acc[i][1] < MmioBase}}
+IsDmaStart(a) == a[2] = 1 /\ a[1] = MmioBase + 478 /\ a[3] = 16576
 RECURSIVE ApplyMmio(_, _, _)
 ApplyMmio(y, acc, j) ==
     IF j > Len(acc) THEN y
     ELSE LET a == acc[j] IN
          IF a[1] \in MmioRange
          THEN (IF ~ Modelled(a[1] - MmioBase) THEN [y EXCEPT !.c = Fail(y.c, "unmodelled")]
-               ELSE IF a[2] = 1 THEN ApplyMmio(MmioWrite(y, a[1] - MmioBase, a[3]), acc, j + 1)
+               ELSE IF a[2] = 1 THEN ApplyMmio(MmioWrite(IF IsDmaStart(a) THEN [y EXCEPT !.hz = LaterTouched(acc, j)] ELSE y,
+                                                         a[1] - MmioBase, a[3]), acc, j + 1)
                ELSE ApplyMmio(ApbpReadEffect(y, a[1] - MmioBase), acc, j + 1))
          ELSE ApplyMmio(y, acc, j + 1)
 
@@ -264,10 +411,19 @@ HostCall(y, op, a1, a2) ==
       [] op = "DataReadA32"   -> LET c1 == RawRead(CoreWithMmio(y), A32(a1)) IN [y |-> HostMem(y, c1), ret |-> ReadVal(c1)]
       [] op = "ProgramWrite"  -> [y |-> HostMem(y, PWrite(CoreWithMmio(y), a1, a2)), ret |-> 0]
       [] op = "ProgramRead"   -> LET c1 == PRead(CoreWithMmio(y), a1) IN [y |-> HostMem(y, c1), ret |-> ReadVal(c1)]
+      [] op = "AHBMRead16"    -> LET r == AhbmHostRead16(y, a1) IN [y |-> AhbmHost(y, r), ret |-> r.v]
+      [] op = "AHBMRead32"    -> LET r == AhbmHostRead32(y, a1) IN [y |-> AhbmHost(y, r), ret |-> r.v[2]]
+      [] op = "AHBMWrite16"   -> [y |-> AhbmHost(y, DM!Write16Op(y.ah.ch[0], a1, a2)), ret |-> 0]
+      [] op = "AHBMWrite32"   -> [y |-> AhbmHost(y, DM!Write32Op(y.ah.ch[0], a1, a2)), ret |-> 0]
+      [] op = "AHBMGetUnitSize"   -> [y |-> y, ret |-> y.ah.ch[a1].u]
+      [] op = "AHBMGetDirection"  -> [y |-> y, ret |-> y.ah.ch[a1].dir]
+      [] op = "AHBMGetDmaChannel" -> [y |-> y, ret |-> y.ah.ch[a1].dm]
+      [] op = "DMAChan0GetSrcHigh" -> [y |-> y, ret |-> y.dma.ch[1].sa[1]]      \* (activates channel 0 and the saved one again)
+      [] op = "DMAChan0GetDstHigh" -> [y |-> y, ret |-> y.dma.ch[1].da[1]]
       [] op = "MMIOWrite"     -> [y |-> MmioWrite(HostMmio(y, a1 % 2048), a1 % 2048, a2), ret |-> 0]
       [] op = "MMIORead"      -> [y |-> ApbpReadEffect(HostMmio(y, a1 % 2048), a1 % 2048), ret |-> MmioRead(y, a1 % 2048)]
 
 SysReset(y) ==       \* Teakra::Impl::Reset: memory zeroed, MIU, APBP, timers, AHBM, DMA, BTDMP, processor registers
     [y EXCEPT !.c.mem = [ph \in {} |-> 0], !.c.io = EmptyIo, !.c.miu = MiuLive, !.tm = <<TM!ResetState, TM!ResetState>>,
-              !.bt = <<BT!ResetState, BT!ResetState>>, !.ap = ApReset]
+              !.bt = <<BT!ResetState, BT!ResetState>>, !.ap = ApReset, !.dma = DmaReset, !.ah = AhReset]
 =============================================================================
